@@ -186,6 +186,10 @@ def hier_requests(rng, n):
 
 
 SCENARIOS += arity_scenarios()
+# the member calls the interpreter makes on its own (the `iter()` and `next()` of a for loop) are member accesses like any other: own fields
+# first (a bound method of ANOTHER object, a closure), then the nearest method; a class without the method but an instance with the field
+SCENARIOS.append(("implicit-protocol-calls-see-fields-first", '#[constructor(new)]\nclass Seq { fn iter(self) { return self; } fn next(self) { return StopIter.new(); } }\nvar src = [10, 20, 30].iter();\nvar a = Seq.new();\na.next = src.next;\nfor v in a { print(v); }\nvar b = Seq.new();\nvar n = 0;\nb.next = || { n = n + 1; if n > 2 { return StopIter.new(); } return n; };\nfor v in b { print(v); }\nprint(type(b.next()) == StopIter);\nvar c = Seq.new();\nc.iter = || [7, 8].iter();\nfor v in c { print(v); }\nfor v in Seq.new() { print("never"); }\n#[constructor(new)]\nclass Bare {}\nvar d = Bare.new();\nvar k = 0;\nd.iter = || d;\nd.next = || { k = k + 1; if k > 2 { return StopIter.new(); } return k * 100; };\nfor v in d { print(v); }\n#[constructor(new), derive(Seq)]\nclass Sub { fn next(self) { self.count = self.count + 1; if self.count > 1 { return StopIter.new(); } return "sub"; } }\nvar e = Sub.new();\ne.count = 0;\nfor v in e { print(v); }\nvar f = Sub.new();\nf.count = 0;\nf.next = a.next;\nfor v in f { print("f " + String.from(v)); }\nprint(f.count);\n',
+                  ["10", "20", "30", "1", "2", "true", "7", "8", "100", "200", "sub", "0"]))
 
 
 def correspondence(ctx, model_ok=True):
